@@ -241,6 +241,25 @@ Definition spec_find_strat (s : spec) (n : name) : option N := lpm (sel_strat s)
 Definition spec_list_fib (s : spec) : list (name * list nexthop) := list_fib s.
 Definition spec_list_strat (s : spec) : list (name * N) := list_strat s.
 
+(* ---- the batch operation of the FibStrategy interface ----
+   ReplaceNextHopsEnc(updates): under ONE acquisition of the table's write lock, for every update in order,
+   clearNextHopsEnc(name) and then insertNextHopEnc(name, face, cost) for each listed next hop.  Sequentially a batch is
+   therefore exactly that sequence of Clr / Ins steps, in both tables. *)
+Inductive bop :=
+| Atom (o : fibop)
+| Rep (batch : list (name * list nexthop)).     (* ReplaceNextHopsEnc *)
+Definition expand_update (u : name * list nexthop) : list fibop :=
+  Clr (fst u) :: map (fun fc => Ins (fst u) (fst fc) (snd fc)) (snd u).
+Definition expand_bop (b : bop) : list fibop :=
+  match b with Atom o => [o] | Rep batch => flat_map expand_update batch end.
+Definition expand (bs : list bop) : list fibop := flat_map expand_bop bs.
+Definition tree_step_b (t : tree) (b : bop) : tree := fold_left tree_step (expand_bop b) t.
+Definition ht_step_b (m : nat) (h : ht) (b : bop) : ht := fold_left (ht_step m) (expand_bop b) h.
+Definition spec_step_b (s : spec) (b : bop) : spec := fold_left spec_step (expand_bop b) s.
+Definition run_tree_b (bs : list bop) : tree := fold_left tree_step_b bs tree_init.
+Definition run_ht_b (m : nat) (bs : list bop) : ht := fold_left (ht_step_b m) bs ht_init.
+Definition run_spec_b (bs : list bop) : spec := fold_left spec_step_b bs spec_init.
+
 (* runs *)
 Definition run_tree (ops : list fibop) : tree := fold_left tree_step ops tree_init.
 Definition run_ht (m : nat) (ops : list fibop) : ht := fold_left (ht_step m) ops ht_init.
